@@ -24,6 +24,8 @@ pub struct ChunkReader {
     pub pending_mode: bool,
     /// after the script the peer stays silent with the transport open: a further read would block forever
     pub idle_after: bool,
+    /// the kind of the transient failure (a read that would block, was interrupted by a signal, timed out)
+    pub transient_kind: io::ErrorKind,
 }
 
 impl ChunkReader {
@@ -44,6 +46,7 @@ impl ChunkReader {
             max_reads: total + n + 64,
             pending_mode: false,
             idle_after: false,
+            transient_kind: io::ErrorKind::WouldBlock,
         }
     }
 
@@ -65,7 +68,7 @@ impl ChunkReader {
             }
             Some(None) => {
                 self.transient.set(true);
-                Err(io::Error::new(io::ErrorKind::WouldBlock, "scripted transient failure"))
+                Err(io::Error::new(self.transient_kind, "scripted transient failure"))
             }
             Some(Some(c)) => {
                 if c.len() <= space {
@@ -351,6 +354,9 @@ pub fn run(toks: &[&str]) -> String {
     reader.fail_kind = fail_kind;
     // "ax": the interrupted receive is a future dropped while it waits for the transport (what select! does), then a new receive
     reader.pending_mode = via == Some('x');
+    // which transient failure: derived from the case text, so a replay meets the same one
+    let hsum: usize = toks.iter().map(|t| t.bytes().map(|b| b as usize).sum::<usize>()).sum();
+    reader.transient_kind = [io::ErrorKind::WouldBlock, io::ErrorKind::Interrupted, io::ErrorKind::TimedOut][hsum % 3];
     // tail "idle": the peer sends the script and then stays silent; receive is called exactly <extra> times
     let idle = toks[3] == "idle";
     reader.idle_after = idle;
